@@ -296,6 +296,35 @@ def toctou_demo(ctx):
     ctx.coverage["toctou_replayed_on_code"] = gone
 
 
+def concurrent_creates(ctx):
+    """two instances inside create() on one path at the same time: every interleaving of their system calls, and
+    one of them dying before any of its calls (drivers/pidfile_conc.py); judged by specs/PidfileConcTrace.tla"""
+    from drivers import pidfile_conc as pc
+    rng = ctx.rng
+    scheds = list(pc.schedules(6, 6))
+    runs = [(s, None) for s in scheds]
+    kills = [(who, k) for who in (1, 2) for k in range(0, 7)]
+    for s in (rng.sample(scheds, 300) if ctx.quick else scheds):
+        for kill in (rng.sample(kills, 2) if ctx.quick else kills):
+            runs.append((s, kill))
+    traces, metas = [], []
+    root = os.path.join(SCRATCH, "conc")
+    for s, kill in runs:
+        ev = pc.run(root, s, kill)
+        traces.append({"ev": ev})
+        metas.append({"schedule": "".join(map(str, s)), "kill": kill})
+    verdicts, stats = tlc.validate_batch("PidfileConcTrace", "PidfileConcTrace.cfg", traces, name="PidfileConcTrace_C17", chunk=4000)
+    ctx.add_traces(len(traces), stats)
+    ctx.coverage["concurrent_create_interleavings"] = len(traces)
+    for t, m, (v, step) in zip(traces, metas, verdicts):
+        if v == "ok":
+            continue
+        e = t["ev"][step - 1]
+        ctx.violation("C17/%s/concurrent-create/at=%s" % (v, e.get("s") or e["e"]),
+                      "%s: two instances in create() at once, schedule %s kill=%s: after %s of instance %s the path shows %s"
+                      % (v, m["schedule"], m["kill"], e.get("s"), e["who"], e["p"]), {"trace": t, "meta": m})
+
+
 def c17(ctx):
     rng = ctx.rng
     os.makedirs(SCRATCH, exist_ok=True)
@@ -331,6 +360,9 @@ def c17(ctx):
         ctx.coverage["system_calls_observed"] = sum(1 for t in traces for e in t if e["e"] == "sys")
         ctx.coverage["crashes_injected"] = sum(1 for t in traces for e in t if e["e"] == "crash")
         judge(ctx, traces, metas)
+        concurrent_creates(ctx)
+        from props import pidfile_real
+        pidfile_real.real_side(ctx)
         toctou_demo(ctx)
         for t in traces[:2]:
             ctx.sample([{k: e[k] for k in ("e", "i", "k", "to", "s", "fin", "x", "c", "st")} for e in t[:12]])
@@ -351,6 +383,20 @@ def c17(ctx):
 
 
 def replay(ctx, data):
+    case = data.get("case", {})
+    if isinstance(case, dict) and isinstance(case.get("meta"), dict) and "schedule" in case["meta"]:
+        from drivers import pidfile_conc as pc
+        m = case["meta"]
+        ev = pc.run(os.path.join(SCRATCH, "conc_replay"), [int(ch) for ch in m["schedule"]], tuple(m["kill"]) if m["kill"] else None)
+        for e in ev:
+            print("  ", e)
+        verdicts, _ = tlc.validate_batch("PidfileConcTrace", "PidfileConcTrace.cfg", [{"ev": ev}], name="PidfileConcTrace_replay")
+        print("verdict:", verdicts[0])
+        return 1 if verdicts[0][0] != "ok" else 0
+    if isinstance(case, dict) and isinstance(case.get("meta"), dict) and "wk" in case["meta"]:
+        verdicts, _ = tlc.validate_batch("PidfileRealTrace", "PidfileRealTrace.cfg", [case["trace"]], name="PidfileRealTrace_replay")
+        print("verdict of the recorded real-process trace:", verdicts[0])
+        return 1 if verdicts[0][0] != "ok" else 0
     case = data["case"]
     t = case["trace"]
     print("replaying %s" % data["signature"])
